@@ -164,6 +164,12 @@ CHECKS = {
             "resulting trees. A disagreement that also occurs with a plain name is keyed as a semantic difference of the operation.",
             "The remote location is /bin/sh on this machine; exception classes are not compared; single operations (no sequences).",
             "3/C24"),
+    "C22": ("exploration", "E3", E3 + "; every (location pair, mode, tree shape, name class, destination form)",
+            "Real DefaultDataManager.transfer_data between a local location and two shell-based remote locations (real tar-stream "
+            "copies, remote-path commands, same-location cp/ln): 8 location pairs x writable/read-only x 10 tree shapes x destination "
+            "{absent, existing directory, renamed} x 11 name classes; oracle: destination content/structure/x-bits equal the source "
+            "(links followed), no outward links in writable copies, destination registered, source untouched.",
+            "Remote = /bin/sh on this machine; wrapped remote locations (containers) are not covered.", "3/C22"),
 }
 
 NOT_YET = "check not built yet in this session (planned, see DESIGN.md section 3); no claim is made"
